@@ -118,7 +118,7 @@ def _compile_one(args):
     if opt == "O0":
         o = ["-O0", "-Xclang", "-disable-O0-optnone"]
     else:
-        o = ["-O2", "-fno-vectorize", "-fno-slp-vectorize", "-fno-unroll-loops"]
+        o = ["-O2", "-fno-vectorize", "-fno-slp-vectorize", "-fno-unroll-loops", "-fno-inline"]
     cmd = [CLANG] + o + ["-g", "-fno-discard-value-names", "-w", "-emit-llvm", "-c",
                            "-o", outbc] + flags + [src]
     p = subprocess.run(cmd, cwd=SRCDIR, capture_output=True, text=True)
